@@ -1,6 +1,7 @@
 package props
 
 import (
+	"time"
 	"context"
 	"fmt"
 	"reflect"
@@ -23,7 +24,7 @@ func init() {
 	lib.Register(&c14{base{
 		id: "C14", level: "exploration",
 		technique: "runtime reference-model monitor: each exported helper is called on generated arguments and its answer (nil / error) is compared online with a textbook definition written independently; every call is repeated (purity) and its slice/map arguments are snapshotted before and compared after",
-		rule: "arguments: valid and invalid UTF-8, multi-byte runes and combining marks exactly at the limits, empty / nil / typed-nil slices, maps, pointers, nested []interface{} and map[string]interface{}, every numeric kind on both sides of an enum, case variants incl. non-ASCII, request / response / absent / foreign contexts, known and unknown formats, nil registry; distinct = FNV-64 of helper name + rendered arguments; non-trivial = the argument sits on a boundary (length == limit, size == limit), or is a container, or crosses Go types, or is not plain ASCII",
+		rule: "arguments: valid and invalid UTF-8, multi-byte runes and combining marks exactly at the limits, empty / nil / typed-nil slices, maps, pointers, zero and non-zero complex numbers, channels, functions, arrays, time values, pointers to zero structs and types with an IsZero method (Required / ReadOnly), nested []interface{} and map[string]interface{}, every numeric kind on both sides of an enum, case variants incl. non-ASCII, request / response / absent / foreign contexts, known and unknown formats, nil registry; distinct = FNV-64 of helper name + rendered arguments; non-trivial = the argument sits on a boundary (length == limit, size == limit), or is a container, or crosses Go types, or is not plain ASCII",
 		assumptions: []string{
 			"UniqueItems is fed homogeneous element types, so deep equality and numeric equality across Go types coincide (the cross-type clause is stated for the enum mechanism)",
 			"case folding is strings.EqualFold (Unicode simple folding), Go arrays and NaN are outside the stated domain",
@@ -82,8 +83,17 @@ func zeroValue(rv reflect.Value) bool {
 		return rv.Float() == 0
 	case reflect.String:
 		return rv.Len() == 0
-	case reflect.Ptr, reflect.Map, reflect.Slice, reflect.Interface, reflect.Chan, reflect.Func:
+	case reflect.Complex64, reflect.Complex128:
+		return rv.Complex() == 0
+	case reflect.Ptr, reflect.Map, reflect.Slice, reflect.Interface, reflect.Chan, reflect.Func, reflect.UnsafePointer:
 		return rv.IsNil()
+	case reflect.Array:
+		for i := 0; i < rv.Len(); i++ {
+			if !zeroValue(rv.Index(i)) {
+				return false
+			}
+		}
+		return true
 	case reflect.Struct:
 		for i := 0; i < rv.NumField(); i++ {
 			if !zeroValue(rv.Field(i)) {
@@ -102,6 +112,75 @@ type c14Struct struct {
 	A int
 	B string
 	C []int
+}
+
+// c14IsZeroer claims to be zero whatever it holds: the textbook definition looks at the value, not at the method.
+type c14IsZeroer struct{ N int }
+
+func (c14IsZeroer) IsZero() bool { return true }
+
+// c14NeverZero claims never to be zero.
+type c14NeverZero struct{ N int }
+
+func (c14NeverZero) IsZero() bool { return false }
+
+var c14Chan = make(chan int)
+
+func c14Func() {}
+
+// zeroishValue draws from the value classes where "zero value" is easy to get wrong: complex numbers, channels,
+// functions, arrays, pointers to zero values, time values, types with an IsZero method, typed nils.
+func (p *c14) zeroishValue(r *lib.Rand) (any, string) {
+	switch r.Intn(24) {
+	case 0:
+		return complex64(0), "complex64(0)"
+	case 1:
+		return complex128(0), "complex128(0)"
+	case 2:
+		return complex(0, 1), "complex128(1i)"
+	case 3:
+		return (chan int)(nil), "(chan int)(nil)"
+	case 4:
+		return c14Chan, "chan int (non-nil)"
+	case 5:
+		return (func())(nil), "(func())(nil)"
+	case 6:
+		return c14Func, "func (non-nil)"
+	case 7:
+		return [2]int{}, "[2]int{}"
+	case 8:
+		return [2]int{0, 1}, "[2]int{0,1}"
+	case 9:
+		return time.Time{}, "time.Time{}"
+	case 10:
+		return &time.Time{}, "&time.Time{}"
+	case 11:
+		return time.Time{}.Local(), "time.Time{}.Local()"
+	case 12:
+		return time.Unix(0, 0).UTC(), "time.Unix(0,0).UTC()"
+	case 13:
+		return strfmt.DateTime{}, "strfmt.DateTime{}"
+	case 14:
+		return &strfmt.DateTime{}, "&strfmt.DateTime{}"
+	case 15:
+		return c14IsZeroer{N: 1}, "c14IsZeroer{N:1} (IsZero() says true)"
+	case 16:
+		return c14IsZeroer{}, "c14IsZeroer{}"
+	case 17:
+		return c14NeverZero{}, "c14NeverZero{} (IsZero() says false)"
+	case 18:
+		return &c14IsZeroer{}, "&c14IsZeroer{}"
+	case 19:
+		return (*c14Struct)(nil), "(*c14Struct)(nil)"
+	case 20:
+		return &c14Struct{}, "&c14Struct{}"
+	case 21:
+		return strfmt.Date{}, "strfmt.Date{}"
+	case 22:
+		return uintptr(0), "uintptr(0)"
+	default:
+		return [0]int{}, "[0]int{}"
+	}
 }
 
 func (p *c14) anyValue(r *lib.Rand, depth int) any {
@@ -336,6 +415,11 @@ func (p *c14) Run(w *lib.Worker, idx int, r *lib.Rand) lib.Case {
 	case "Required":
 		data := p.anyValue(r, 1)
 		render = fmt.Sprintf("Required(%#v)", data)
+		if r.P(0.3) {
+			var txt string
+			data, txt = p.zeroishValue(r)
+			render = "Required(" + txt + ")"
+		}
 		want = !isZero(data)
 		nontrivial = hasContainer(data) || data == nil
 		snapArgs = []any{data}
@@ -371,6 +455,11 @@ func (p *c14) Run(w *lib.Worker, idx int, r *lib.Rand) lib.Case {
 			ctx = validate.WithOperationResponse(validate.WithOperationRequest(context.Background()))
 		}
 		render = fmt.Sprintf("ReadOnly(ctx=%s, %#v)", ctxKind, data)
+		if r.P(0.3) {
+			var txt string
+			data, txt = p.zeroishValue(r)
+			render = fmt.Sprintf("ReadOnly(ctx=%s, %s)", ctxKind, txt)
+		}
 		isReq := ctxKind == "request" || ctxKind == "request-over-response"
 		want = !isReq || isZero(data)
 		nontrivial = true
